@@ -17,7 +17,8 @@ from .. import core, tlc
 from ..core import Tally
 from ahrs.utils.wmm import WMM
 
-DATES = {"d2017": 2017.3, "d2022": 2022.8, "d2027": 2027.1}
+# one decimal date, one calendar-date OBJECT (the same object is handed to every call, as a caller holding a date would), one integer-ish decimal
+DATES = {"d2017": 2017.3, "d2022": datetime.date(2022, 10, 19), "d2027": 2027.1}
 PLACES = {"munich": (48.1372, 11.5755, 0.519), "lat0": (0.0, 11.5, 0.0), "lon0": (48.0, 0.0, 0.5), "northpole": (90.0, 0.0, 0.0),
           "southpole": (-90.0, 45.0, 1.0), "lon180": (-30.0, 180.0, 10.0)}
 KEYS = ["X", "Y", "Z", "H", "F", "I", "D", "GV"]
